@@ -172,6 +172,22 @@ class ConvergeScenario(WorldScenario):
         if not self.drain_ops(w, r, all_ok=False, bound=bound) or w.pending_violation:
             return
         patterns = self._patterns(w, r) if r.chance(0.3) else []
+        if self.profile.get("p_transient") and w.cluster is not None and r.chance(self.profile["p_transient"]):
+            # the run meets one transient failure of a scheduler command (a busy controller); the user simply
+            # runs again.  Whatever the first attempt got accepted is part of "the run".
+            from .world_scenario import SUBMIT_EXE
+
+            try:
+                n_sub = max(1, len(w.m_plan(patterns)))
+            except Exception:
+                n_sub = 1
+            exe = SUBMIT_EXE[self.knobs["backend"]] if r.chance(0.8) else \
+                {"slurm": "squeue", "sge": "qstat", "lsf": "bjobs"}[self.knobs["backend"]]
+            self.emit(w, {"op": "gwf", "argv": ["run"] + patterns, "cwd": self.knobs["cwd"],
+                          "fault": {"cmd_faults": [[exe, 1 + r.randrange(n_sub), r.pick(["F1", "F1", "F4"])]]}})
+            w.probe("runs_with_transient_failure")
+            if w.pending_violation:
+                return
         self.emit(w, {"op": "gwf", "argv": ["run"] + patterns, "cwd": self.knobs["cwd"]})
         if w.pending_violation or not self.drain_ops(w, r, all_ok=True, bound=bound):
             return
